@@ -163,3 +163,7 @@ def s_prod_tuple(a, b, v):
 
 def s_negative_index(a, b, v):
     return np.array([a[-1], a[-2], b[-1], a[len(a) - 1]])
+
+
+def s_list_repeat(a, b, v):
+    return np.array([a[0]] * 3 + [0] * 2 + 2 * [b[1], b[2]])
